@@ -27,7 +27,7 @@ use yash_env::job::Pid;
 use yash_env::semantics::{ExitStatus, Field};
 use yash_env::system::concurrency::WriteAll as _;
 use yash_env::system::r#virtual::{FileBody, Process, SystemState, VirtualSystem};
-use yash_env::system::{Close as _, Concurrent, Fcntl as _, Pipe as _};
+use yash_env::system::{Close as _, Concurrent, Fcntl as _, GetPid as _, Pipe as _};
 use yverif::proto::{Opts, dec_bytes, emit, enc_bytes, enc_str, guarded, quiet_panics};
 use yverif::rng::Rng;
 use yash_cli::startup::args::{InitFile, Run, Source, Work};
@@ -43,13 +43,17 @@ use yverif::shell::{BuiltinFuture, Config, Outcome, SourceKind, VEnv, probe_buil
 
 /// the files the scripts may read with the `.` built-in (the same in lean/YashModel/Input/Model.lean
 /// `dotFile`)
-const DOT_FILES: [(&str, &str); 6] = [
+const DOT_FILES: [(&str, &str); 8] = [
     ("/d1", "probe D1\nread vd\nprobe D1b \"$vd\"\n"),
     ("/d2", "alias a3='probe fromdot'\nset -o portable\n"),
     ("/d3", "probe D3a\nfi\nprobe D3b\n"),
     ("/d4", "probe D4 'multi\nline'\ncat <<E\nh dot é\nE\n"),
     ("/d5", ""),
     ("/d6", "st 3"),
+    // data files for `<path` (the second one looks like commands: a shell that came to read its
+    // commands from it would run them)
+    ("/r1", "r1 one\nr1 two é\n"),
+    ("/r2", "probe FROMR2 a\nprobe FROMR2 b\n"),
 ];
 
 #[derive(Clone, Debug)]
@@ -85,7 +89,9 @@ thread_local! {
 fn stdin_offset(env: &VEnv) -> usize {
     let state = STATE.with(|s| s.borrow().clone()).unwrap();
     let st = state.borrow();
-    let Some(p) = st.processes.get(&env.main_pid) else { return usize::MAX };
+    // the process the command runs in (a subshell has its own descriptor table: a redirection made
+    // inside it is not visible in the parent's)
+    let Some(p) = st.processes.get(&env.system.getpid()) else { return usize::MAX };
     let Some(body) = p.get_fd(Fd::STDIN) else { return usize::MAX };
     let mut ofd = body.open_file_description.borrow_mut();
     let fifo_len = match &ofd.inode().borrow().body {
@@ -103,7 +109,7 @@ fn stdin_offset(env: &VEnv) -> usize {
 fn stdin_mode(env: &VEnv) -> &'static str {
     let state = STATE.with(|s| s.borrow().clone()).unwrap();
     let st = state.borrow();
-    let Some(p) = st.processes.get(&env.main_pid) else { return "" };
+    let Some(p) = st.processes.get(&env.system.getpid()) else { return "" };
     let Some(body) = p.get_fd(Fd::STDIN) else { return "" };
     if body.open_file_description.borrow().is_nonblocking() { "!nb" } else { "" }
 }
@@ -679,6 +685,7 @@ fn obs_of(o: Outcome) -> Obs {
             if !t.starts_with(b"error: cannot execute")
                 && !t.starts_with(b"error: error reading from the standard input")
                 && !t.starts_with(b"error: input contains a nul byte")
+                && !t.starts_with(b"error: cannot open the file")
             {
                 err = true;
             }
@@ -926,6 +933,20 @@ fn oracle(c: &Case, script: &[u8], obs: &Obs) -> String {
             }
         }
     }
+    // (9) the contents of a here-document or of a file a command's standard input was redirected to are
+    // data of that command only: the shell never reads its commands from them (descriptor 0 refers
+    // to the script again when the command is over)
+    for marker in ["FROMR2"] {
+        if !probe_fields(obs, marker).is_empty() {
+            return format!("FAIL:redirected-input-was-read-as-commands {marker}");
+        }
+    }
+    for it in &obs.items {
+        let it = it.strip_suffix("!nb").unwrap_or(it);
+        if is_probe_line(it) && it.split_once(':').unwrap().1.starts_with("4844") {
+            return "FAIL:redirected-input-was-read-as-commands HD".into();
+        }
+    }
     // a reported error (other than a command that was not found) is a syntax error: status 2
     if obs.err && obs.status != 2 {
         return "FAIL:error-reported-without-syntax-error-status".into();
@@ -936,8 +957,10 @@ fn oracle(c: &Case, script: &[u8], obs: &Obs) -> String {
         let valid = std::str::from_utf8(script).is_ok()
             && !script.windows(3).any(|w| w == b"-d ");
         for it in obs.items.iter().filter(|_| valid) {
+            // a probe marked `I…` runs with standard input redirected: its offset is not one of the script
+            let inside = it.split_once(':').map(|x| x.1.starts_with("49")).unwrap_or(false);
             if let Some(o) = offset_of(it) {
-                if !line_start(script, o) {
+                if !inside && !line_start(script, o) {
                     return format!("FAIL:offset-inside-line {o}");
                 }
             }
@@ -993,6 +1016,29 @@ fn oracle(c: &Case, script: &[u8], obs: &Obs) -> String {
                 let fs: Vec<&str> = fields.split(',').collect();
                 if fs.len() == 2 && fs[0] == marker && fs[1] != enc_str(want) {
                     return format!("FAIL:read-got-other-line R{k}");
+                }
+            }
+        }
+        // (10) a command line `probe X<k> …` follows a command whose standard input was redirected (and
+        // the contents of its here-documents): it was still there to be read and ran exactly once
+        for (j, unit) in c.units.iter().enumerate() {
+            if !complete[j] {
+                continue;
+            }
+            let after_ok = if j + 1 < c.units.len() { complete[j + 1] } else { !obs.err && unit.ends_with(b"\n") };
+            if !after_ok {
+                continue;
+            }
+            let text = String::from_utf8_lossy(unit).into_owned();
+            for line in text.split('\n') {
+                let Some(p) = line.strip_prefix("probe X") else { continue };
+                let k: String = p.chars().take_while(|c| c.is_ascii_digit()).collect();
+                if k.is_empty() {
+                    continue;
+                }
+                let got = probe_fields(obs, &format!("X{k}"));
+                if got.len() != 1 {
+                    return format!("FAIL:command-after-a-redirected-command-ran-{}-times X{k}", got.len());
                 }
             }
         }
@@ -1095,6 +1141,7 @@ struct Gen {
     marker: u32,
     rmarker: u32,
     bmarker: u32,
+    xmarker: u32,
     here: u32,
     aliases: Vec<usize>,
     portable: bool,
@@ -1275,6 +1322,67 @@ impl Gen {
             }
             _ => format!("st 1 && read {v}\nprobe {} not-data", self.m()),
         }
+    }
+    /// a fresh here-document: (delimiter, contents) — the contents are lines that would fail loudly
+    /// (`h: not found`) or be seen (`probe HD…`) if a shell came to read them as commands
+    fn hd(&mut self) -> (String, String) {
+        self.here += 1;
+        let d = format!("E{}", self.here);
+        let n = 1 + self.rng.below(2);
+        let mut body = String::new();
+        for i in 0..n {
+            if i == 0 && self.rng.chance(1, 3) {
+                body.push_str(&format!("probe HD{} leaked\n", self.here));
+            } else {
+                let dl = self.data_line();
+                body.push_str(&format!("h{} {dl}\n", self.here));
+            }
+        }
+        (d, body)
+    }
+    /// a probe that runs while standard input is redirected (marker `I…`: its offset is an offset
+    /// into the here-document or file, not into the script)
+    fn im(&mut self) -> String {
+        self.marker += 1;
+        format!("I{}", self.marker)
+    }
+    /// commands whose standard input is redirected — once, twice or three times on the same command
+    /// (here-documents, `<file`, mixed), on simple and on compound commands, nested — followed by a
+    /// command line (marker `X…`) that must still be read from the script and run, sometimes by a
+    /// `read` that must get the line of the script / of the data that follows
+    fn redir_unit(&mut self) -> String {
+        let v = self.var();
+        let w = self.var();
+        let (d1, b1) = self.hd();
+        let (d2, b2) = self.hd();
+        self.xmarker += 1;
+        let x = format!("X{}", self.xmarker);
+        let tail = match self.rng.below(4) {
+            0 => format!("read {w}\n{}\nprobe {x} \"${w}\" \"${v}\"", self.data_line()),
+            1 => format!("probe {x} $?; read {w}; probe {} \"${w}\"\n{}", self.m(), self.data_line()),
+            _ => format!("probe {x} \"${v}\" $?"),
+        };
+        let i1 = self.im();
+        let i2 = self.im();
+        let head = match self.rng.below(16) {
+            0 => format!("cat <<{d1} <<{d2}\n{b1}{d1}\n{b2}{d2}"),
+            1 => format!("read {v} <<{d1} <<{d2}\n{b1}{d1}\n{b2}{d2}"),
+            2 => format!("{{ read {v}; probe {i1} \"${v}\"; read {w}; probe {i2} \"${w}\" $?; }} <<{d1} <<{d2}\n{b1}{d1}\n{b2}{d2}"),
+            3 => "cat </r1 </r2".to_string(),
+            4 => format!("read {v} </r2 <<{d1}\n{b1}{d1}"),
+            5 => format!("read -r {v} <<{d1} </r1\n{b1}{d1}"),
+            6 => format!("while read {v}; do probe {i1} \"${v}\"; done <<{d1}\n{b1}{d1}"),
+            7 => format!("if read {v}; then probe {i1} \"${v}\"; cat; fi </r1"),
+            8 => format!("( read {v}; probe {i1} \"${v}\" ) <<{d1} <<{d2}\n{b1}{d1}\n{b2}{d2}"),
+            9 => format!("{{ cat <<{d1}; read {v}; probe {i1} \"${v}\"; }} <<{d2}\n{b1}{d1}\n{b2}{d2}"),
+            10 => format!("cat <<{d1} </r1 <<{d2}\n{b1}{d1}\n{b2}{d2}"),
+            11 => format!("{{ read {v} </r1; read {w}; probe {i1} \"${v}\" \"${w}\"; }} <<{d1} <<{d2}\n{b1}{d1}\n{b2}{d2}"),
+            12 => format!("cat </nonexistent; probe {} $?\n{{ probe {i1}; }} <<{d1} </nonexistent\n{b1}{d1}", self.m()),
+            13 => format!("{{ {{ read {v}; probe {i1} \"${v}\"; }} <<{d1}; read {w}; probe {i2} \"${w}\"; }} <<{d2}\n{b1}{d1}\n{b2}{d2}"),
+            14 => format!("until read {v} <<{d1} <<{d2}\n{b1}{d1}\n{b2}{d2}\ndo probe {i1}; done"),
+            _ => format!("<<{d1} <<{d2} read {v} {w}\n{b1}{d1}\n{b2}{d2}"),
+        };
+        format!("{head}\n{tail}")
     }
     fn alias_unit(&mut self) -> String {
         let k = 1 + self.rng.below(3);
@@ -1665,11 +1773,14 @@ impl Gen {
             format!("{{ st 0; }} ! st 1"),
             format!("{{ st 0; }} do probe {m}"),
             format!("{{ st 0; }} in"),
+            format!("{{ eval 'fi'; probe {m}; }} <<EOT <<EOU\nh\nEOT\nprobe {m} leaked\nEOU"),
+            format!("cat <<EOT <\nh\nEOT"),
         ];
         pool[self.rng.below(pool.len())].clone()
     }
     fn unit(&mut self) -> String {
-        match self.rng.below(22) {
+        match self.rng.below(24) {
+            22 | 23 => self.redir_unit(),
             20 | 21 => self.read_bs_unit(),
             0..=3 => self.line(),
             4..=7 => self.read_unit(),
@@ -1904,7 +2015,13 @@ fn main() {
     // thin branches fed with a boundary at every byte position: here-documents split across reads,
     // line continuation at a chunk boundary, an alias whose replacement consumes the next line, end of
     // input inside a quote, NUL and invalid UTF-8 bytes in data and in script text
-    let edge_scripts: [&[&str]; 14] = [
+    let edge_scripts: [&[&str]; 19] = [
+        // standard input redirected twice on one command: afterwards descriptor 0 is the script again
+        &["cat <<A <<B\nprobe HD1 leaked\nA\nb1\nB\n", "probe X1 $?\n"],
+        &["{ read v1; probe I1 \"$v1\"; } <<A <<B\nh a\nA\nh é b\nB\n", "read v2\nnext line\nprobe X2 \"$v1\" \"$v2\"\n"],
+        &["cat </r1 </r2\n", "probe X3 $?\n"],
+        &["while read v1; do probe I2 \"$v1\"; done <<A </r1\nh\nA\n", "probe X4\n"],
+        &["read v1 </r2 <<A; read v2 <<B </r1\nh1\nA\nh2\nB\nprobe X5 \"$v1\" \"$v2\"\n", "cat </nonexistent <<C\nh3\nC\nprobe X6 $?\n"],
         // a backslash followed by the end of the input stays in the line as a lone quoting character:
         // not IFS white space, so the last variable keeps the blank before it (seen in `fin=`)
         &["read v1 v2\nx y \\"],
@@ -2008,6 +2125,7 @@ fn main() {
             marker: 0,
             rmarker: 0,
             bmarker: 0,
+            xmarker: 0,
             here: 0,
             aliases: vec![],
             portable: false,
